@@ -136,9 +136,9 @@ func init() {
 	// C11: validators (a supermajority) agreeing on hostile values, followed by the epoch ends that consume them
 	extraHostile["oracle"] = func(p *PRNG, cfg Config, plan Plan) Plan {
 		op := GenOraclePlan(NewPRNG(p.Uint64()), cfg, OracleGenOpts{MinBlocks: len(plan.Blocks), MaxBlocks: len(plan.Blocks), Hostile: true, HugePrices: cfg.HugeAmounts})
-		hostile := []string{"0", "1", "1000000"}
+		hostile := []string{"0", "1", "1000000", "abc", "", "-5", "0x10", "1e3", " 7"}
 		if cfg.HugeAmounts {
-			hostile = append(hostile, "18446744073709551616", "123456789012345678901234567890", "-5", "abc", "")
+			hostile = append(hostile, "18446744073709551616", "123456789012345678901234567890")
 		}
 		for i := range plan.Blocks {
 			if i < len(op.Blocks) {
@@ -146,6 +146,10 @@ func init() {
 			}
 			if p.Chance(1, 5) {
 				plan.Blocks[i].Ops = append(plan.Blocks[i].Ops, PriceRound(cfg.NOps, 1+p.Intn(len(cfg.Assets)), hostile[p.Intn(len(hostile))])...)
+				// the node restarts while the hostile submissions are in its recovery window
+				if p.Chance(1, 2) {
+					plan.Blocks[i].Restart = true
+				}
 			}
 		}
 		return plan
